@@ -22,13 +22,14 @@ PID = 'C08'
 LEVEL = 'exploration'
 RULE = ('6 supervised learners x parameters (n_constraints in {None,10,40}; n_chunks x chunk_size; k_genuine x k_impostor x basis; '
         'prior incl. random) x seeds {0,1,2} x label layouts {no unknown, unknown first / middle / last, two unknown, '
-        'unbalanced, renamed non-contiguous classes without / with an unknown} x datasets; signature = (learner, parameters, layout, dataset, '
+        'unbalanced, renamed non-contiguous classes without / with an unknown, two same-class points at the same position} x datasets; signature = (learner, parameters, layout, dataset, '
         '#constraints consumed); non-trivial = at least one constraint consumed')
 ASSUMPTIONS = ['The default n_constraints (None) is compared only on layouts without unknown labels (the documented '
                '"20 * num_classes^2" does not say whether the unknown label counts as a class).',
                "For SCML_Supervised(basis='lda') the generated basis is captured and handed to the base learner as an array; "
                'oracle (c) is not applied to that configuration (the basis generation reads all points).']
-LAYOUTS = ['none', 'first', 'middle', 'last', 'two', 'unbalanced', 'renamed', 'renamed_unknown']
+LAYOUTS = ['none', 'first', 'middle', 'last', 'two', 'unbalanced', 'renamed', 'renamed_unknown', 'dup_rows']
+DUP_LEARNERS = ('ITML_Supervised', 'MMC_Supervised', 'SDML_Supervised', 'LSML_Supervised', 'RCA_Supervised')
 
 
 def V(site, clause, msg, triggers=(), **detail):
@@ -94,6 +95,8 @@ def cases(tier, seed):
         for name in SUP:
             for i, p in enumerate(param_sets(name, ds, tier)):
                 for lay in LAYOUTS:
+                    if lay == 'dup_rows' and name not in DUP_LEARNERS:
+                        continue        # k-NN triplets with exact distance ties are C07's ambiguity domain
                     out.append(('%s/%s/p%d/%s' % (name, dsn, i, lay), (name, dsn, i, lay, seed)))
     return out
 
@@ -134,6 +137,13 @@ def run_case(spec):
     ds = data.dataset('R', seed0) if dsn == 'R' else data.dataset(dsn)
     X = ds.X.copy()
     y = layout(ds, lay)
+    dup = None
+    if lay == 'dup_rows':
+        # two labeled points of the same class at exactly the same position (different row indices): legal data; a
+        # generated pair joining the two would be a collapsed pair, those (seed, parameter) combinations are skipped
+        idx = np.where(y == y[0])[0]
+        dup = (int(idx[0]), int(idx[-1]))
+        X[dup[1]] = X[dup[0]]
     over = dict(param_sets(name, ds, 'quick')[pi])
     is_lda = isinstance(over.get('basis'), str) and over['basis'] == 'lda'
     viol, sigs = [], set()
@@ -142,10 +152,17 @@ def run_case(spec):
         return dict(evals=0, sigs=[], viol=[], stats={'skipped_default_n_constraints_with_unknown': 1})
     base_name = name[:-len('_Supervised')]
     trig = c07.lab_triggers(y) + [lay]
+    skipped = 0
     for seed in (0, 1, 2):
         p = zoo.base_params(name, ds)
         p.update(over)
         p['random_state'] = seed
+        if dup is not None and name != 'RCA_Supervised':
+            nc_ = p['n_constraints'] if p['n_constraints'] is not None else 20 * len(np.unique(y)) ** 2
+            a_, b_, c_, d_ = Constraints(y).positive_negative_pairs(nc_, same_length=(name == 'LSML_Supervised'), random_state=seed)
+            if ((X[a_] == X[b_]).all(axis=1)).any() or ((X[c_] == X[d_]).all(axis=1)).any():
+                skipped += 1
+                continue
         sup = zoo.cls(name)(**p)
         cap = None
         lda_basis = []
@@ -233,6 +250,8 @@ def run_case(spec):
             ch = seen[0]
             for x in c07.check_chunks_out(y, ch, p['n_chunks'], p['chunk_size'], site=name + '.consumed_chunks'):
                 viol.append(x)
+        elif dup is not None:
+            pass        # rows -> indices is not a function when two rows coincide; oracles (a) and (c) only
         else:
             T = cap.seen[0][0]
             try:
@@ -268,6 +287,6 @@ def run_case(spec):
                               '%.3g) [seed %d, %s]' % (np.abs(sup2.get_mahalanobis_matrix() - M).max(), seed, lay), trig))
         if ncons:
             sigs.add((name, pi, lay, dsn, seed, ncons))
-    return dict(evals=evals, sigs=sigs, viol=viol,
+    return dict(evals=evals, sigs=sigs, viol=viol, stats={'skipped_collapsed_pair_generated': skipped},
                 sample={'learner': name, 'dataset': dsn, 'parameters': {k: (v if not isinstance(v, np.ndarray) else 'array%s' % (v.shape,))
                                                                        for k, v in over.items()}, 'layout': lay, 'labels': y.tolist()})
